@@ -42,7 +42,7 @@ def emit_cases(ctx):
         raise vlib.Inconclusive("MCEvolve printed no cases")
     out = []
     for i, c in enumerate(cases):
-        if c["inj"] and c["inj"][2]["id"] >= 90:
+        if c["inj"] and c["inj"][2]["id"] in (90, 91, 92):
             # a deeply nested foreign value: kept as text (the JSON reader of the trace checker stops at 255 levels; the
             # oracle needs the writer's value and the bytes only)
             c["inj"] = [c["inj"][0], c["inj"][1], {"id": c["inj"][2]["id"], "deep": json.dumps(c["inj"][2]["v"], separators=(",", ":"))}]
